@@ -124,7 +124,7 @@ class Explorer:
                 for g in goals:
                     ghyps = hyps + g.hyps + [h.proved_node for h in g.hyp_goals if h.proved_node is not None]
                     if any(h.proved_node is None for h in g.hyp_goals):
-                        out.unknown.append((g.label, f'{self.label} region {k}: a lemma it depends on was not proved',
+                        out.unknown.append((g.signature, f'{g.label} ({self.label} region {k}: a lemma it depends on was not proved)',
                                             dict(witness)))
                         continue
                     st, r, text = prove(d, ghyps, g.node, timeout=g.timeout or self.timeout,
@@ -145,7 +145,7 @@ class Explorer:
                         model = {n: r.values.get(V[n]) for n in V}
                         out.failed.append((g, model, k, dict(witness)))
                     else:
-                        out.unknown.append((g.label, f'{self.label} region {k}: {r.raw[:120] if r else ""}',
+                        out.unknown.append((g.signature, f'{g.label} ({self.label} region {k}: {r.raw[:120] if r else ""})',
                                             dict(witness)))
                 # ---- well-definedness: denominators != 0, log/sqrt arguments in domain
                 if self.check_defined:
